@@ -182,7 +182,8 @@ func checkRestrictedJoin(
 		return "", nil
 	}
 	var joinRules JoinRuleContent
-	if err = json.Unmarshal(joinRulesEvent.Content(), &joinRules); err != nil {
+	// member names are exact, as in NewJoinRuleContentFromAuthEvents
+	if err = json.Unmarshal(exactMembersOnly(joinRulesEvent.Content(), &joinRules), &joinRules); err != nil {
 		return "", fmt.Errorf("json.Unmarshal: %w", err)
 	}
 
